@@ -142,6 +142,45 @@ def fam_close(ctx, kind, frame, hist, variant=0):
         ctx.require(bool(a == b) and hash_eq(a, b), sig + ': identical objects differ after restoring eps')
 
 
+def fam_survive(ctx, kind, frame, hist, variant=0):
+    """objects that were built, compared and hashed under the DEFAULT configuration and are then used again after the
+    configuration history: state cached inside the objects must not keep the old tolerance (and vice versa when the
+    default is restored)"""
+    k = final_k(hist)
+    lim = F(1, 10 ** (k + 3))
+    a1 = tuple(F(c) for c in DIRS[variant % len(DIRS)])
+    dl = ctx.param('delta', -lim, lim)
+    d1 = R.vscale(dl, a1)
+    sig = 'C19:%s built before set_eps, used at eps=1e-%d' % (kind, k)
+    G.set_eps()
+    a, b, pa, pb = objects(ctx, kind, frame, d1, None)
+    # exercise every query once under the default configuration (answers there are not asserted: |delta| may exceed 1e-10)
+    for fn in (lambda: a == b, lambda: hash_eq(a, b), lambda: (H_(a), H_(b)), lambda: repr(a)):
+        call(fn)
+    with Config(hist):
+        for x, y in ((a, b), (b, a)):
+            st, r = call(lambda: x == y)
+            ctx.require(st == 'ok' and bool(r), sig + ': objects within eps/1000 compare unequal (stale state from the earlier configuration)')
+        st, r = call(lambda: hash_eq(a, b))
+        ctx.require(st == 'ok' and r, sig + ': objects within eps/1000 hash differently (stale state from the earlier configuration)')
+        fa, fb, _, _ = objects(ctx, kind, frame, d1, None)
+        st, r = call(lambda: hash_eq(b, fb))
+        ctx.require(st == 'ok' and r, sig + ': an object hashes differently from a freshly built identical twin')
+        # ... and objects first used under the new configuration, then under the restored default
+        c1, c2, _, _ = objects(ctx, kind, frame, d1, None)
+        call(lambda: c1 == c2)
+        call(lambda: hash_eq(c1, c2))
+    G.set_eps()
+    if kind in ('Point', 'Vector'):
+        big = ctx.holds(Or(dl > F(4, 10 ** 10) * F(1001, 1000) / max(abs(x) for x in a1 if x), dl < -F(4, 10 ** 10) * F(1001, 1000) / max(abs(x) for x in a1 if x)))
+        if big:
+            st, r = call(lambda: c1 == c2)
+            ctx.require(st == 'ok' and not bool(r), sig + ': objects more than 4 eps apart still compare equal after the default was restored')
+    z1, z2, _, _ = objects(ctx, kind, frame, (F(0),) * 3)
+    ctx.require(bool(z1 == z2) and hash_eq(z1, z2), sig + ': identical objects differ after restoring eps')
+    ctx.outcome('survive')
+
+
 def fam_far(ctx, kind, frame, hist, axis):
     """Points / Vectors differing by more than 4 eps in some coordinate compare unequal"""
     k = final_k(hist)
@@ -183,6 +222,12 @@ def families(tier, seed):
                 for variant in (range(len(DIRS)) if tier == 'thorough' else sorted({(hi + kinds.index(kind)) % len(DIRS), (hi + 3) % len(DIRS)})):
                     fams.append(Family('close/%s/%s/%s/v%d' % (kind, fr, _hname(h), variant), fam_close, (kind, fr, h, variant), must_reach=('close',),
                                        budget_s=300 if kind == 'ConvexPolyhedron' else None))
+        if hi < (2 if tier == 'quick' else 99):
+            for kind in kinds:
+                if kind == 'ConvexPolyhedron' and tier == 'quick' and hi > 0:
+                    continue
+                fams.append(Family('survive/%s/axis/%s' % (kind, _hname(h)), fam_survive, (kind, 'axis', h, hi + kinds.index(kind)), must_reach=('survive',),
+                                   budget_s=300 if kind == 'ConvexPolyhedron' else None))
         for kind in ('Point', 'Vector'):
             for axis in range(3):
                 fams.append(Family('far/%s/%s/axis%d' % (kind, _hname(h), axis), fam_far, (kind, 'axis', h, axis), must_reach=('far',)))
